@@ -81,8 +81,8 @@ impl Check for C13 {
     }
     fn count(&self, tier: Tier) -> u64 {
         match tier {
-            Tier::Quick => 40_000,
-            Tier::Thorough => 3_000_000,
+            Tier::Quick => 400_000,
+            Tier::Thorough => 30_000_000,
         }
     }
 
